@@ -1,6 +1,6 @@
 (* C07 — Chunk store round trip and chunk addressing.  Only statements here. *)
 From Coq Require Import ZArith List Bool.
-From KV Require Import Base.Sx Gen.Generated Model.Chunks Model.ChunksMulti Proofs.ChunksP Proofs.ChunksRtP Proofs.ChunksPruneP Proofs.ChunksPrunedReadP Proofs.ChunksTopP Proofs.ChunksGenP Proofs.ChunksMultiP Model.ChunksGenPy Proofs.ChunksGenPyP.
+From KV Require Import Base.Sx Gen.Generated Model.Chunks Model.ChunksMulti Proofs.ChunksP Proofs.ChunksRtP Proofs.ChunksPruneP Proofs.ChunksPrunedReadP Proofs.ChunksTopP Proofs.ChunksGenP Proofs.ChunksMultiP Model.ChunksGenPy Proofs.ChunksGenPyP Proofs.ChunksLinkP.
 Import ListNotations.
 Open Scope Z_scope.
 
@@ -419,3 +419,33 @@ Example C07_generate_chunks_negative_limit_refuted :
   gen_chunks_py [4; 6; 50] 600000 4 (Some [0]) false (Some [(0, -1)]) = Ok [[]; [6]; [50]]
   /\ tiles_ok [4; 6; 50] [[]; [6]; [50]] = false.
 Proof. vm_compute. split; reflexivity. Qed.
+
+(* ---- links between the clauses ---- *)
+
+(* a chunking scheme produced by the chunk generator round-trips: whatever generate_chunks returns (any public
+   arguments in the domain) used as the chunking of put_dask_array / get_dask_array writes every block successfully
+   and reads the array back element for element, for any offset, element type and prior store content *)
+Theorem C07_generated_chunks_round_trip : forall (A : Type) (d : A) (miss : option A) (st : store A) (arr : str) (dt : Z)
+    (f : list Z -> A) shape mn md dims pow2 mde out (off : list Z),
+  gc_domain_py shape mn md mde = true ->
+  gen_chunks_py shape mn md dims pow2 mde = Ok out ->
+  (off = [] \/ List.length off = List.length shape) ->
+  Forall (fun r => r = None) (snd (put_array st arr dt f out off)) /\
+  get_array d miss (fst (put_array st arr dt f out off)) arr dt out off = Ok (map f (enumerate shape)).
+Proof. exact generated_chunks_round_trip. Qed.
+Print Assumptions C07_generated_chunks_round_trip.
+
+(* put_dask_array's mapping of dask blocks to chunk names, for ANY (irregular) chunking: block (k1, .., kn) is stored
+   under the name printed from the start tuple (total size of the first k_i chunks of axis i), its slice on axis i
+   ends at the total size of the first k_i + 1 chunks *)
+Theorem C07_block_locations : forall chunks b, In b (blocks chunks) ->
+  Forall2 (fun cs se => exists k, (k < List.length cs)%nat /\ se = (sumZ (firstn k cs), sumZ (firstn (S k) cs))) chunks b.
+Proof. exact blocks_locations. Qed.
+Print Assumptions C07_block_locations.
+
+Example C07_block_locations_example :
+  blocks [[3; 1; 2]; [2; 5]]
+  = [[(0,3);(0,2)]; [(0,3);(2,7)]; [(3,4);(0,2)]; [(3,4);(2,7)]; [(4,6);(0,2)]; [(4,6);(2,7)]]
+  /\ map fst (fst (put_array [] [120] 7 (fun _ : list Z => 0) [[3; 1; 2]] [10]))
+     = map (fun s => chunk_key (chunk_name [120] [s])) [14; 13; 10].
+Proof. vm_compute. auto. Qed.
